@@ -203,7 +203,18 @@ pub fn run_history(steps: &[SwStep]) -> SwOutcome {
                 _ => String::new(),
             };
             if let Some(v) = first_order_violation(&after) {
-                let stream: Vec<String> = after.iter().filter(|h| v.contains(&h.sid)).map(|h| format!("{}:{}", h.seq, ETYPES.get(h.code as usize).copied().unwrap_or("?"))).collect();
+                // the stream of the first frame that does not carry the number due
+                let mut due: std::collections::HashMap<(u64, String), u64> = Default::default();
+                let mut culprit: Option<(rip_kernel::StreamKind, String)> = None;
+                for h in &after {
+                    let e = due.entry((kind_code(h.kind), h.sid.clone())).or_insert(0);
+                    if h.seq != *e {
+                        culprit = Some((h.kind, h.sid.clone()));
+                        break;
+                    }
+                    *e += 1;
+                }
+                let stream: Vec<String> = after.iter().filter(|h| culprit.as_ref().map(|c| c.0 == h.kind && c.1 == h.sid).unwrap_or(false)).map(|h| format!("{}:{}", h.seq, ETYPES.get(h.code as usize).copied().unwrap_or("?"))).collect();
                 out.violation = Some((
                     format!("after step {si} ({:?}{with_fault}; the call answered {}, {new} new frames in the log): {v}; that stream in file order: {stream:?}", st.call, match code { 1 | 0 => "Ok", 2 => "Err", _ => "-" }),
                     "store_side_write_failure_renumbers_logged_thread",
